@@ -146,47 +146,66 @@ Definition mb_at (p : pos) : bool := match p with P_Done | P_Post => false | _ =
 
 (* ------------------------------------------------------------------ gates *)
 Definition modelled_gates : list gate_row := [
-  mk_row "_clientGetServerHello" 0 "" [("", [22], [2])];
-  mk_row "_clientGetServerHello" 1 "result.random == TLS_1_3_HRR and ext and (ext.version > (3, 3))"
+  mk_row "_handshakeClientAsyncHelper" 0 ""
      [("", [22], [2])];
-  mk_row "_clientTLS13Handshake" 0 "" [("", [22], [8])];
-  mk_row "_clientTLS13Handshake" 1 "not sr_psk"
+  mk_row "_handshakeClientAsyncHelper" 1 "result.random == TLS_1_3_HRR and ext and (ext.version > (3, 3))"
+     [("", [22], [2])];
+  mk_row "_handshakeClientAsyncHelper" 2 "ext and ext.version > (3, 3)"
+     [("", [22], [8])];
+  mk_row "_handshakeClientAsyncHelper" 3 "ext and ext.version > (3, 3) && not sr_psk"
      [("comp_cert_ext", [22], [13; 11; 25]); ("not (comp_cert_ext)", [22], [13; 11])];
-  mk_row "_clientTLS13Handshake" 2 "not sr_psk && isinstance(result, CertificateRequest)"
+  mk_row "_handshakeClientAsyncHelper" 4 "ext and ext.version > (3, 3) && not sr_psk && isinstance(result, CertificateRequest)"
      [("comp_cert_ext", [22], [11; 25]); ("not (comp_cert_ext)", [22], [11])];
-  mk_row "_clientTLS13Handshake" 3 "not sr_psk" [("", [22], [15])];
-  mk_row "_clientTLS13Handshake" 4 "" [("", [22], [20])];
-  mk_row "_clientKeyExchange" 0
-     "cipherSuite in CipherSuite.certAllSuites or cipherSuite in CipherSuite.ecdheEcdsaSuites or cipherSuite in CipherSuite.dheDsaSuites"
-     [("", [22], [11])];
-  mk_row "_clientKeyExchange" 1 "cipherSuite not in CipherSuite.certSuites" [("", [22], [12])];
-  mk_row "_clientKeyExchange" 2 "" [("", [22], [13; 14])];
-  mk_row "_clientKeyExchange" 3 "isinstance(result, CertificateRequest)" [("", [22], [14])];
-  mk_row "_serverTLS13Handshake" 0 "reqCert and selected_psk is None"
-     [("cert_req_comp_cert_ext", [22], [11; 25]); ("not (cert_req_comp_cert_ext)", [22], [11])];
-  mk_row "_serverTLS13Handshake" 1 "client_cert_chain and client_cert_chain.getNumCerts()"
+  mk_row "_handshakeClientAsyncHelper" 5 "ext and ext.version > (3, 3) && not sr_psk"
      [("", [22], [15])];
-  mk_row "_serverTLS13Handshake" 2 "" [("", [22], [20])];
-  mk_row "_serverGetClientHello" 0 "" [("", [22], [1])];
-  mk_row "_serverGetClientHello" 1 "version > (3, 3) && hrr_ext" [("", [22], [1])];
-  mk_row "_serverSRPKeyExchange" 0 "" [("", [22], [16])];
-  mk_row "_serverCertKeyExchange" 0 "reqCert && self.version == (3, 0)" [("", [22; 21], [11])];
-  mk_row "_serverCertKeyExchange" 1
-     "reqCert && not (self.version == (3, 0)) && self.version in ((3, 1), (3, 2), (3, 3))"
+  mk_row "_handshakeClientAsyncHelper" 6 "ext and ext.version > (3, 3)"
+     [("", [22], [20])];
+  mk_row "_handshakeClientAsyncHelper" 7 "cipherSuite in CipherSuite.certAllSuites or cipherSuite in CipherSuite.ecdheEcdsaSuites or cipherSuite in CipherSuite.dheDsaSuites"
      [("", [22], [11])];
-  mk_row "_serverCertKeyExchange" 2 "" [("", [22], [16])];
-  mk_row "_serverCertKeyExchange" 3 "clientCertChain" [("", [22], [15])];
-  mk_row "_serverAnonKeyExchange" 0 "" [("", [22], [16])];
-  mk_row "_getFinished" 0 "expect_new_session_ticket and self._client" [("", [22], [4])];
-  mk_row "_getFinished" 1 "" [("", [22; 20], [])];
-  mk_row "_getFinished" 2 "expect_next_protocol" [("", [22], [67])];
-  mk_row "_getFinished" 3 "" [("", [22], [20])];
+  mk_row "_handshakeClientAsyncHelper" 8 "cipherSuite not in CipherSuite.certSuites"
+     [("", [22], [12])];
+  mk_row "_handshakeClientAsyncHelper" 9 ""
+     [("", [22], [13; 14])];
+  mk_row "_handshakeClientAsyncHelper" 10 "isinstance(result, CertificateRequest)"
+     [("", [22], [14])];
+  mk_row "_handshakeServerAsyncHelper" 0 ""
+     [("", [22], [1])];
+  mk_row "_handshakeServerAsyncHelper" 1 "version > (3, 3) && hrr_ext"
+     [("", [22], [1])];
+  mk_row "_handshakeServerAsyncHelper" 2 "version > (3, 3) && reqCert and selected_psk is None"
+     [("cert_req_comp_cert_ext", [22], [11; 25]); ("not (cert_req_comp_cert_ext)", [22], [11])];
+  mk_row "_handshakeServerAsyncHelper" 3 "version > (3, 3) && client_cert_chain and client_cert_chain.getNumCerts()"
+     [("", [22], [15])];
+  mk_row "_handshakeServerAsyncHelper" 4 "version > (3, 3)"
+     [("", [22], [20])];
+  mk_row "_handshakeServerAsyncHelper" 5 "cipherSuite in CipherSuite.srpAllSuites"
+     [("", [22], [16])];
+  mk_row "_handshakeServerAsyncHelper" 6 "not (cipherSuite in CipherSuite.srpAllSuites) && cipherSuite in CipherSuite.certSuites or cipherSuite in CipherSuite.dheCertSuites or cipherSuite in CipherSuite.dheDsaSuites or (cipherSuite in CipherSuite.ecdheCertSuites) or (cipherSuite in CipherSuite.ecdheEcdsaSuites) && reqCert && self.version == (3, 0)"
+     [("", [22; 21], [11])];
+  mk_row "_handshakeServerAsyncHelper" 7 "not (cipherSuite in CipherSuite.srpAllSuites) && cipherSuite in CipherSuite.certSuites or cipherSuite in CipherSuite.dheCertSuites or cipherSuite in CipherSuite.dheDsaSuites or (cipherSuite in CipherSuite.ecdheCertSuites) or (cipherSuite in CipherSuite.ecdheEcdsaSuites) && reqCert && not (self.version == (3, 0)) && self.version in ((3, 1), (3, 2), (3, 3))"
+     [("", [22], [11])];
+  mk_row "_handshakeServerAsyncHelper" 8 "not (cipherSuite in CipherSuite.srpAllSuites) && cipherSuite in CipherSuite.certSuites or cipherSuite in CipherSuite.dheCertSuites or cipherSuite in CipherSuite.dheDsaSuites or (cipherSuite in CipherSuite.ecdheCertSuites) or (cipherSuite in CipherSuite.ecdheEcdsaSuites)"
+     [("", [22], [16])];
+  mk_row "_handshakeServerAsyncHelper" 9 "not (cipherSuite in CipherSuite.srpAllSuites) && cipherSuite in CipherSuite.certSuites or cipherSuite in CipherSuite.dheCertSuites or cipherSuite in CipherSuite.dheDsaSuites or (cipherSuite in CipherSuite.ecdheCertSuites) or (cipherSuite in CipherSuite.ecdheEcdsaSuites) && clientCertChain"
+     [("", [22], [15])];
+  mk_row "_handshakeServerAsyncHelper" 10 "not (cipherSuite in CipherSuite.srpAllSuites) && not (cipherSuite in CipherSuite.certSuites or cipherSuite in CipherSuite.dheCertSuites or cipherSuite in CipherSuite.dheDsaSuites or (cipherSuite in CipherSuite.ecdheCertSuites) or (cipherSuite in CipherSuite.ecdheEcdsaSuites)) && cipherSuite in CipherSuite.anonSuites or cipherSuite in CipherSuite.ecdhAnonSuites"
+     [("", [22], [16])];
+  mk_row "_getFinished" 0 "expect_new_session_ticket and self._client"
+     [("", [22], [4])];
+  mk_row "_getFinished" 1 ""
+     [("", [22; 20], [])];
+  mk_row "_getFinished" 2 "expect_next_protocol"
+     [("", [22], [67])];
+  mk_row "_getFinished" 3 ""
+     [("", [22], [20])];
   mk_row "readAsync" 0 ""
      [("self.version > (3, 3) && not self._client && self._client_keypair", [23; 22], [24; 13]); ("self.version > (3, 3) && not self._client && not (self._client_keypair) && self._cert_requests && cert_req_with_comp_cert_ext", [23; 22], [24; 11; 25]); ("self.version > (3, 3) && not self._client && not (self._client_keypair) && self._cert_requests && not (cert_req_with_comp_cert_ext)", [23; 22], [24; 11]); ("self.version > (3, 3) && not self._client && not (self._client_keypair) && not (self._cert_requests)", [23; 22], [24]); ("self.version > (3, 3) && not (not self._client) && self._client_keypair", [23; 22], [4; 24; 13]); ("self.version > (3, 3) && not (not self._client) && not (self._client_keypair) && self._cert_requests && cert_req_with_comp_cert_ext", [23; 22], [4; 24; 11; 25]); ("self.version > (3, 3) && not (not self._client) && not (self._client_keypair) && self._cert_requests && not (cert_req_with_comp_cert_ext)", [23; 22], [4; 24; 11]); ("self.version > (3, 3) && not (not self._client) && not (self._client_keypair) && not (self._cert_requests)", [23; 22], [4; 24]); ("not (self.version > (3, 3))", [23], [])];
   mk_row "_decrefAsync" 0 "self._refCount == 0 and (not self.closed) && not (self.closeSocket)"
      [("", [21; 23], [])];
-  mk_row "_handle_srv_pha" 0 "cert.cert_chain" [("", [22], [15])];
-  mk_row "_handle_srv_pha" 1 "" [("", [22], [20])]
+  mk_row "_handle_srv_pha" 0 "cert.cert_chain"
+     [("", [22], [15])];
+  mk_row "_handle_srv_pha" 1 ""
+     [("", [22], [20])]
 ].
 
 (* my reading of every unexpected_message abort site (method, ordinal, enclosing conditions).
@@ -196,10 +215,10 @@ Definition modelled_gates : list gate_row := [
    handshake messages, flow at F_Ccs), _getMsg 0-7 (getmsg / getmsg_hs).  Compared with the
    regenerated table by Props.C06.order_checks_as_modelled. *)
 Definition modelled_order_checks : list (string * Z * string) := [
-  ("_clientGetServerHello", 0, "real_version > (3, 3) and (not self._defragmenter.is_empty())");
-  ("_clientTLS13Handshake", 0, "not sr_psk && cert_ext && not settings.dc_sig_algs");
-  ("_clientKeyExchange", 0, "isinstance(result, CertificateRequest) && cipherSuite not in CipherSuite.certAllSuites and cipherSuite not in CipherSuite.ecdheEcdsaSuites and (cipherSuite not in CipherSuite.dheDsaSuites) or cipherSuite in CipherSuite.srpAllSuites");
-  ("_serverGetClientHello", 0, "version > (3, 3) && not self._defragmenter.is_empty()");
+  ("_handshakeClientAsyncHelper", 0, "real_version > (3, 3) and (not self._defragmenter.is_empty())");
+  ("_handshakeClientAsyncHelper", 1, "ext and ext.version > (3, 3) && not sr_psk && cert_ext && not settings.dc_sig_algs");
+  ("_handshakeClientAsyncHelper", 2, "isinstance(result, CertificateRequest) && cipherSuite not in CipherSuite.certAllSuites and cipherSuite not in CipherSuite.ecdheEcdsaSuites and (cipherSuite not in CipherSuite.dheDsaSuites) or cipherSuite in CipherSuite.srpAllSuites");
+  ("_handshakeServerAsyncHelper", 0, "version > (3, 3) && not self._defragmenter.is_empty()");
   ("_getFinished", 0, "not self._defragmenter.is_empty()");
   ("_getFinished", 1, "expect_next_protocol && result is None");
   ("_getMsg", 0, "self.version > (3, 3) and recordHeader.type != ContentType.handshake and self._defragmenter.buffers[ContentType.handshake]");
@@ -210,9 +229,9 @@ Definition modelled_order_checks : list (string * Z * string) := [
   ("_getMsg", 5, "not (recordHeader.type == ContentType.change_cipher_spec) && not (recordHeader.type == ContentType.alert) && not (recordHeader.type == ContentType.application_data) && recordHeader.type == ContentType.handshake && recordHeader.ssl2 && HandshakeType.client_hello not in secondaryType");
   ("_getMsg", 6, "not (recordHeader.type == ContentType.change_cipher_spec) && not (recordHeader.type == ContentType.alert) && not (recordHeader.type == ContentType.application_data) && recordHeader.type == ContentType.handshake && not (recordHeader.ssl2) && subType not in secondaryType");
   ("_getMsg", 7, "not (recordHeader.type == ContentType.change_cipher_spec) && not (recordHeader.type == ContentType.alert) && not (recordHeader.type == ContentType.application_data) && recordHeader.type == ContentType.handshake && self.version > (3, 3) and subType in (HandshakeType.client_hello, HandshakeType.end_of_early_data, HandshakeType.server_hello, HandshakeType.finished, HandshakeType.key_update) and (not self._defragmenter.is_empty())");
-  ("_getNextRecordFromSocket", 0, "except TLSUnexpectedMessage");
-  ("_getNextRecordFromSocket", 1, "header.type != ContentType.application_data and parser.getRemainingLength() == 0");
-  ("_getNextRecordFromSocket", 2, "header.type not in ContentType.all")
+  ("_getNextRecord", 0, "except TLSUnexpectedMessage");
+  ("_getNextRecord", 1, "header.type != ContentType.application_data and parser.getRemainingLength() == 0");
+  ("_getNextRecord", 2, "header.type not in ContentType.all")
 ].
 
 (* the defragmenter pieces those checks rely on, as normalised source text *)
@@ -222,7 +241,7 @@ Definition modelled_defrag : list (string * string) := [
   ("Defragmenter.add_data", "if msg_type not in self.priorities: raise ValueError('Message type not defined') ; self.buffers[msg_type] += data");
   ("Defragmenter.clear_buffers", "for key in self.buffers.keys(): self.buffers[key] = bytearray(0)");
   ("TLSRecordLayer.defragmenter_setup", "self._defragmenter.add_static_size(ContentType.change_cipher_spec, 1) ; self._defragmenter.add_static_size(ContentType.alert, 2) ; self._defragmenter.add_dynamic_size(ContentType.handshake, 1, 3)");
-  ("is_empty.users", "_clientGetServerHello:1 ; _serverGetClientHello:1 ; _getFinished:1 ; _getMsg:1")
+  ("is_empty.users", "_handshakeClientAsyncHelper:1 ; _handshakeServerAsyncHelper:1 ; _getFinished:1 ; _getMsg:1")
 ].
 
 (* my reading of every assignment to early_data_ok: switched on by a first ClientHello that
@@ -230,9 +249,23 @@ Definition modelled_defrag : list (string * string) := [
    _getNextRecord, switched off UNCONDITIONALLY after every record recvRecord processed
    (step_t: ed'/ed'').  Compared by Props.C06.early_data_as_modelled. *)
 Definition modelled_early_data : list (string * Z * string * string) := [
-  ("_serverGetClientHello", 0, "ver_ext and (3, 4) in ver_ext.versions && early_data", "True");
+  ("_handshakeServerAsyncHelper", 0, "ver_ext and (3, 4) in ver_ext.versions && early_data", "True");
   ("_getNextRecord", 0, "header.type == ContentType.application_data or (self.version > (3, 3) and header.type == ContentType.change_cipher_spec) && header.type == ContentType.change_cipher_spec", "early_data_ok");
   ("RecordLayer.recvRecord", 0, "", "False")
+].
+
+(* my reading of how each flow calls the gate-carrying methods that have several callers:
+   the client passes expect_new_session_ticket = "ServerHello carried session_ticket" (c_ticket) and
+   never expect_next_protocol; the server passes expect_next_protocol = "nextProtos is not None",
+   i.e. exactly when it put the NPN extension into its ServerHello (c_npn), and nothing when it
+   resumes (after_ccs / fin_start).  Compared by Props.C06.gate_calls_as_modelled. *)
+Definition modelled_gate_calls : list (string * Z * string * string * string) := [
+  ("_handshakeClientAsyncHelper", 0, "_getFinished", "session and (session.sessionID or session.tls_1_0_tickets) and serverHello.session_id and (serverHello.session_id == offered_session_id)", "session.masterSecret, session.cipherSuite, expect_new_session_ticket=ticket_announced");
+  ("_handshakeClientAsyncHelper", 1, "_getFinished", "", "masterSecret, cipherSuite, nextProto=nextProto, expect_new_session_ticket=expect_new_session_ticket");
+  ("_handshakeServerAsyncHelper", 0, "_getFinished", "clientHello.session_id and sessionCache or (ticket_ext and ticket_ext.ticket) && session", "session.masterSecret, session.cipherSuite");
+  ("_handshakeServerAsyncHelper", 1, "_getFinished", "", "masterSecret, cipherSuite, expect_next_protocol=nextProtos is not None");
+  ("readAsync", 0, "_handle_srv_pha", "not (isinstance(result, NewSessionTicket)) && not (isinstance(result, KeyUpdate)) && isinstance(result, CompressedCertificate)", "result");
+  ("readAsync", 1, "_handle_srv_pha", "not (isinstance(result, NewSessionTicket)) && not (isinstance(result, KeyUpdate)) && not (isinstance(result, CompressedCertificate)) && isinstance(result, Certificate)", "result")
 ].
 
 
@@ -251,37 +284,42 @@ Fixpoint gate_of (G : list gate_row) (fn : string) (ord : Z) (alt : nat) : gate 
       else gate_of G' fn ord alt
   end.
 
+(* rows are keyed by ROOT method (helper generators with a single caller are flattened into it):
+   _handshakeClientAsyncHelper 0-1 = _clientGetServerHello, 2-6 = _clientTLS13Handshake,
+   7-10 = _clientKeyExchange; _handshakeServerAsyncHelper 0-1 = _serverGetClientHello,
+   2-4 = _serverTLS13Handshake, 5 = _serverSRPKeyExchange, 6-9 = _serverCertKeyExchange,
+   10 = _serverAnonKeyExchange *)
 Definition gate_at (G : list gate_row) (c : cfg) (p : pos) : gate :=
   match p with
-  | C_SH | C13_SH0 => gate_of G "_clientGetServerHello" 0 0
-  | C13_SH1 => gate_of G "_clientGetServerHello" 1 0
-  | C_Cert => gate_of G "_clientKeyExchange" 0 0
-  | C_SKE => gate_of G "_clientKeyExchange" 1 0
-  | C_CRSHD => gate_of G "_clientKeyExchange" 2 0
-  | C_SHD => gate_of G "_clientKeyExchange" 3 0
+  | C_SH | C13_SH0 => gate_of G "_handshakeClientAsyncHelper" 0 0
+  | C13_SH1 => gate_of G "_handshakeClientAsyncHelper" 1 0
+  | C_Cert => gate_of G "_handshakeClientAsyncHelper" 7 0
+  | C_SKE => gate_of G "_handshakeClientAsyncHelper" 8 0
+  | C_CRSHD => gate_of G "_handshakeClientAsyncHelper" 9 0
+  | C_SHD => gate_of G "_handshakeClientAsyncHelper" 10 0
   | F_First => gate_of G "_getFinished" 0 0
   | F_Ccs => gate_of G "_getFinished" 1 0
   | F_Npn => gate_of G "_getFinished" 2 0
   | F_Fin => gate_of G "_getFinished" 3 0
-  | C13_EE => gate_of G "_clientTLS13Handshake" 0 0
-  | C13_CRCert => gate_of G "_clientTLS13Handshake" 1 (if c_ccert c then 0 else 1)%nat
-  | C13_Cert => gate_of G "_clientTLS13Handshake" 2 (if c_ccert c then 0 else 1)%nat
-  | C13_CV => gate_of G "_clientTLS13Handshake" 3 0
-  | C13_Fin => gate_of G "_clientTLS13Handshake" 4 0
-  | S_CH => gate_of G "_serverGetClientHello" 0 0
-  | S13_CH2 => gate_of G "_serverGetClientHello" 1 0
-  | S_Cert => if c_ssl3 c then gate_of G "_serverCertKeyExchange" 0 0
-              else gate_of G "_serverCertKeyExchange" 1 0
+  | C13_EE => gate_of G "_handshakeClientAsyncHelper" 2 0
+  | C13_CRCert => gate_of G "_handshakeClientAsyncHelper" 3 (if c_ccert c then 0 else 1)%nat
+  | C13_Cert => gate_of G "_handshakeClientAsyncHelper" 4 (if c_ccert c then 0 else 1)%nat
+  | C13_CV => gate_of G "_handshakeClientAsyncHelper" 5 0
+  | C13_Fin => gate_of G "_handshakeClientAsyncHelper" 6 0
+  | S_CH => gate_of G "_handshakeServerAsyncHelper" 0 0
+  | S13_CH2 => gate_of G "_handshakeServerAsyncHelper" 1 0
+  | S_Cert => if c_ssl3 c then gate_of G "_handshakeServerAsyncHelper" 6 0
+              else gate_of G "_handshakeServerAsyncHelper" 7 0
   | S_CKE => match c_kx c with
-             | KSrp | KSrpCert => gate_of G "_serverSRPKeyExchange" 0 0
-             | KAnon => gate_of G "_serverAnonKeyExchange" 0 0
-             | _ => gate_of G "_serverCertKeyExchange" 2 0
+             | KSrp | KSrpCert => gate_of G "_handshakeServerAsyncHelper" 5 0
+             | KAnon => gate_of G "_handshakeServerAsyncHelper" 10 0
+             | _ => gate_of G "_handshakeServerAsyncHelper" 8 0
              end
-  | S_CV => gate_of G "_serverCertKeyExchange" 3 0
+  | S_CV => gate_of G "_handshakeServerAsyncHelper" 9 0
   (* in TLS 1.3 a CertificateRequest always carries compress_certificate: alternative 0 *)
-  | S13_Cert => gate_of G "_serverTLS13Handshake" 0 0
-  | S13_CV => gate_of G "_serverTLS13Handshake" 1 0
-  | S13_Fin => gate_of G "_serverTLS13Handshake" 2 0
+  | S13_Cert => gate_of G "_handshakeServerAsyncHelper" 2 0
+  | S13_CV => gate_of G "_handshakeServerAsyncHelper" 3 0
+  | S13_Fin => gate_of G "_handshakeServerAsyncHelper" 4 0
   (* readAsync without post-handshake authentication pending *)
   | P_Done | P_Post =>
       gate_of G "readAsync" 0
